@@ -1,4 +1,331 @@
-import Percival.Model.Heap
+import Percival.Proofs.HeapEx
+/-!
+# C13 — pointer heap and timer queue are correct priority queues with stable handles
+
+All theorems are about `Percival.Model.Heap` / `Percival.Model.TimerQueue` (the executable model
+that is compared in lock-step with `datastruct/ptrheap.c` / `timerqueue.c` on every run) for an
+arbitrary comparison `key : Nat → Int`, arbitrary sizes and arbitrary operation sequences.
+
+`Inv key h` (defined in `Proofs/HeapOps.lean`, unfolded by `inv_iff` below) says: ids pairwise
+distinct; the position last reported through `setreccookie` for the element in slot `i` is `i`;
+parent ≤ child on every edge.
+-/
 namespace Percival.C13
-theorem placeholder : True := trivial
+open Percival.Model Percival.Model.Heap Percival.Model.HeapRun
+open Percival.Proofs.Heap Percival.Proofs.TQ Percival.Spec.PQ
+
+/-! ## 1. The invariant and its preservation -/
+
+/-- what `Inv` says, in terms of plain array indexing -/
+theorem inv_iff (key : Nat → Int) (h : Heap) :
+    Inv key h ↔
+      (∀ i j (hi : i < h.a.size) (hj : j < h.a.size), h.a[i] = h.a[j] → i = j) ∧
+      (∀ i (hi : i < h.a.size), posOf h h.a[i] = some i) ∧
+      (∀ i (hi : i < h.a.size), 0 < i → key (h.a[(i-1)/2]'(by omega)) ≤ key h.a[i]) := by
+  constructor
+  · intro H
+    refine ⟨?_, ?_, ?_⟩
+    · intro i j hi hj heq
+      exact H.distinct i j h.a[i] (Array.getElem?_eq_getElem hi) (by rw [heq]; exact Array.getElem?_eq_getElem hj)
+    · intro i hi; exact H.handles i _ (Array.getElem?_eq_getElem hi)
+    · intro i hi h0
+      exact H.ordered i _ _ h0 (Array.getElem?_eq_getElem hi) (Array.getElem?_eq_getElem (by omega))
+  · intro ⟨H1, H2, H3⟩
+    constructor
+    · intro i j x hi hj
+      obtain ⟨si, ei⟩ := Array.getElem?_eq_some_iff.mp hi
+      obtain ⟨sj, ej⟩ := Array.getElem?_eq_some_iff.mp hj
+      exact H1 i j si sj (ei.trans ej.symm)
+    · intro i x hi
+      obtain ⟨si, ei⟩ := Array.getElem?_eq_some_iff.mp hi
+      rw [← ei]; exact H2 i si
+    · intro i c q h0 hc hq
+      obtain ⟨si, ei⟩ := Array.getElem?_eq_some_iff.mp hc
+      obtain ⟨sq, eq⟩ := Array.getElem?_eq_some_iff.mp hq
+      rw [← ei, ← eq]; exact H3 i si h0
+
+example : Inv exKey exHeap ∧ exHeap.a = #[3, 1, 9, 5, 4, 7] := ⟨exHeap_inv, by decide⟩
+
+theorem heap_inv_empty (key : Nat → Int) : Inv key Heap.empty := inv_empty key
+
+example : Heap.empty.a.size = 0 := rfl
+
+/-- `ptrheap_create` on distinct pointers: invariant from nothing; holds exactly the given pointers -/
+theorem heap_create (key : Nat → Int) (ptrs : List Nat) (hnd : ptrs.Nodup) :
+    Inv key (create key ptrs) ∧ (create key ptrs).a.toList.Perm ptrs :=
+  ⟨create_inv key ptrs hnd, create_perm key ptrs⟩
+
+example : [5, 3, 7, 1, 4, 9].Nodup ∧ (create exKey [5, 3, 7, 1, 4, 9]).a ≠ #[5, 3, 7, 1, 4, 9] :=
+  ⟨by decide, by decide⟩
+
+/-- `ptrheap_add` of a fresh id: invariant kept, multiset gains exactly `e` -/
+theorem heap_add (key : Nat → Int) (h : Heap) (e : Nat) (hi : Inv key h) (hf : e ∉ h.a.toList) :
+    Inv key (add key h e) ∧ (add key h e).a.toList.Perm (e :: h.a.toList) :=
+  ⟨add_inv key h e hi (fun i hie => hf ((mem_iff_get _ _).mpr ⟨i, hie⟩)), add_perm key h e⟩
+
+-- 6 (key 0) stays below 9 (key 0): ties stop the sift-up; 12 (key 0) climbs two levels past 5 and 1
+example : Inv exKey exHeap ∧ 6 ∉ exHeap.a.toList ∧ (add exKey exHeap 6).a = #[3, 1, 9, 5, 4, 7, 6] :=
+  ⟨exHeap_inv, by decide, by decide⟩
+example : 12 ∉ (add exKey exHeap 8).a.toList ∧ (add exKey (add exKey exHeap 8) 12).a = #[3, 12, 9, 1, 4, 7, 8, 5] :=
+  ⟨by decide, by decide⟩
+
+/-- `ptrheap_delete(H, rc)` with `rc < nelems`: succeeds, invariant kept, and the element removed is
+exactly the one in slot `rc`, i.e. the one for which position `rc` was most recently reported;
+nothing else leaves or enters.  (Covers the stale last slot and `heapify` over the old length.) -/
+theorem heap_delete (key : Nat → Int) (h : Heap) (rc : Nat) (hi : Inv key h) (hrc : rc < h.a.size) :
+    ∃ h' x, delete key h rc = some h' ∧ Inv key h' ∧ h.a[rc]? = some x ∧ posOf h x = some rc ∧
+      h.a.toList.Perm (x :: h'.a.toList) := by
+  obtain ⟨h', x, h1, h2, h3, h4, h5, _⟩ := delete_spec key h rc hi hrc
+  exact ⟨h', x, h1, h2, h3, h4, h5⟩
+
+-- slot 0 (move-down branch over the old length) and slot 3 (move-up branch: 7 < 5 by key)
+example : Inv exKey exHeap ∧ 0 < exHeap.a.size ∧ (delete exKey exHeap 0).map (·.a) = some #[9, 1, 7, 5, 4] :=
+  ⟨exHeap_inv, by decide, by decide⟩
+example : 3 < exHeap.a.size ∧ (delete exKey exHeap 3).map (·.a) = some #[3, 1, 9, 7, 4] :=
+  ⟨by decide, by decide⟩
+
+/-- `ptrheap_deletemin` on a non-empty heap removes exactly the element `getmin` returns -/
+theorem heap_deletemin (key : Nat → Int) (h : Heap) (hi : Inv key h) (hne : 0 < h.a.size) :
+    ∃ h' e, getmin h = some e ∧ deletemin key h = some h' ∧ Inv key h' ∧
+      h.a.toList.Perm (e :: h'.a.toList) := by
+  obtain ⟨h', x, h1, h2, h3, _, h5, _⟩ := delete_spec key h 0 hi hne
+  exact ⟨h', x, h3, h1, h2, h5⟩
+
+example : Inv exKey exHeap ∧ 0 < exHeap.a.size := ⟨exHeap_inv, by decide⟩
+
+/-- `ptrheap_decrease(H, rc)` on a heap that is ordered except that the element at `rc` may be smaller
+than its ancestors -/
+theorem heap_decrease (key : Nat → Int) (h h' : Heap) (rc : Nat)
+    (hd : ∀ i j x : Nat, h.a[i]? = some x → h.a[j]? = some x → i = j)
+    (hp : ∀ i x : Nat, h.a[i]? = some x → posOf h x = some i)
+    (hex : OrderedExcept key h h.a.size rc) (hg : GrandOK key h h.a.size rc)
+    (hr : decrease key h rc = some h') : Inv key h' ∧ h'.a.toList.Perm h.a.toList :=
+  ⟨decrease_inv key h h' rc hd hp hex hg hr, decrease_perm key h h' rc hr⟩
+
+-- element 7 in slot 5 gets key -1: ordered except at 5 upward; it travels to the root
+example : OrderedExcept (upd exKey 7 (-1)) exHeap exHeap.a.size 5 ∧ GrandOK (upd exKey 7 (-1)) exHeap exHeap.a.size 5 ∧
+    (decrease (upd exKey 7 (-1)) exHeap 5).map (·.a) = some #[7, 1, 3, 5, 4, 9] :=
+  have h := decrease_pre_of_key (upd exKey 7 (-1)) exKey exHeap 5 7 exHeap_inv (by decide)
+    (fun x hx => upd_ne _ _ _ _ hx) (by decide)
+  ⟨h.1, h.2, by decide⟩
+
+/-- the same in terms of the API contract: the key of the element at `rc` (and no other) has decreased -/
+theorem heap_decrease_key (key0 key : Nat → Int) (h : Heap) (rc e : Nat) (hi : Inv key0 h)
+    (he : h.a[rc]? = some e) (hsame : ∀ x, x ≠ e → key x = key0 x) (hle : key e ≤ key0 e) :
+    ∃ h', decrease key h rc = some h' ∧ Inv key h' ∧ h'.a.toList.Perm h.a.toList := by
+  have hs : decrease key h rc = some (siftUp key true rc h rc) := by simp [decrease, lt_of_get he]
+  exact ⟨_, hs, decrease_inv_key key key0 h _ rc e hi he hsame hle hs, decrease_perm key h _ rc hs⟩
+
+example : Inv exKey exHeap ∧ exHeap.a[5]? = some 7 ∧ (∀ x, x ≠ 7 → upd exKey 7 (-1) x = exKey x) ∧
+    upd exKey 7 (-1) 7 ≤ exKey 7 :=
+  ⟨exHeap_inv, by decide, fun x hx => upd_ne _ _ _ _ hx, by decide⟩
+
+/-- `ptrheap_increase(H, rc)` on a heap that is ordered except below `rc` -/
+theorem heap_increase (key : Nat → Int) (h h' : Heap) (rc : Nat)
+    (hd : ∀ i j x : Nat, h.a[i]? = some x → h.a[j]? = some x → i = j)
+    (hp : ∀ i x : Nat, h.a[i]? = some x → posOf h x = some i)
+    (hex : OrderedBelowExcept key h h.a.size 0 rc) (hg : ParentOK key h h.a.size 0 rc)
+    (hr : increase key h rc = some h') : Inv key h' ∧ h'.a.toList.Perm h.a.toList :=
+  ⟨increase_inv key h h' rc hd hp hex hg hr, increase_perm key h h' rc hr⟩
+
+-- element 1 in slot 1 gets key 5: it sinks below 4
+example : OrderedBelowExcept (upd exKey 1 5) exHeap exHeap.a.size 0 1 ∧ ParentOK (upd exKey 1 5) exHeap exHeap.a.size 0 1 ∧
+    (increase (upd exKey 1 5) exHeap 1).map (·.a) = some #[3, 4, 9, 5, 1, 7] :=
+  have h := increase_pre_of_key (upd exKey 1 5) exKey exHeap 1 1 exHeap_inv (by decide)
+    (fun x hx => upd_ne _ _ _ _ hx) (by decide)
+  ⟨h.1, h.2, by decide⟩
+
+theorem heap_increase_key (key0 key : Nat → Int) (h : Heap) (rc e : Nat) (hi : Inv key0 h)
+    (he : h.a[rc]? = some e) (hsame : ∀ x, x ≠ e → key x = key0 x) (hge : key0 e ≤ key e) :
+    ∃ h', increase key h rc = some h' ∧ Inv key h' ∧ h'.a.toList.Perm h.a.toList := by
+  have hs : increase key h rc = some (siftDown key true h.a.size h.a.size h rc) := by
+    simp [increase, lt_of_get he]
+  exact ⟨_, hs, increase_inv_key key key0 h _ rc e hi he hsame hge hs, increase_perm key h _ rc hs⟩
+
+example : Inv exKey exHeap ∧ exHeap.a[1]? = some 1 ∧ (∀ x, x ≠ 1 → upd exKey 1 5 x = exKey x) ∧
+    exKey 1 ≤ upd exKey 1 5 1 :=
+  ⟨exHeap_inv, by decide, fun x hx => upd_ne _ _ _ _ hx, by decide⟩
+
+/-- `ptrheap_increasemin(H)` on a heap that is ordered except below the root -/
+theorem heap_increasemin (key : Nat → Int) (h : Heap)
+    (hd : ∀ i j x : Nat, h.a[i]? = some x → h.a[j]? = some x → i = j)
+    (hp : ∀ i x : Nat, h.a[i]? = some x → posOf h x = some i)
+    (hex : OrderedBelowExcept key h h.a.size 0 0) :
+    Inv key (increasemin key h) ∧ (increasemin key h).a.toList.Perm h.a.toList :=
+  ⟨increasemin_inv key h hd hp hex, increasemin_perm key h⟩
+
+example : OrderedBelowExcept (upd exKey 3 1) exHeap exHeap.a.size 0 0 ∧
+    (increasemin (upd exKey 3 1) exHeap).a = #[9, 1, 3, 5, 4, 7] :=
+  ⟨(increase_pre_of_key (upd exKey 3 1) exKey exHeap 0 3 exHeap_inv (by decide)
+      (fun x hx => upd_ne _ _ _ _ hx) (by decide)).1, by decide⟩
+
+theorem heap_increasemin_key (key0 key : Nat → Int) (h : Heap) (e : Nat) (hi : Inv key0 h)
+    (he : getmin h = some e) (hsame : ∀ x, x ≠ e → key x = key0 x) (hge : key0 e ≤ key e) :
+    Inv key (increasemin key h) ∧ (increasemin key h).a.toList.Perm h.a.toList :=
+  ⟨increasemin_inv_key key key0 h e hi he hsame hge, increasemin_perm key h⟩
+
+example : Inv exKey exHeap ∧ getmin exHeap = some 3 ∧ (∀ x, x ≠ 3 → upd exKey 3 1 x = exKey x) ∧
+    exKey 3 ≤ upd exKey 3 1 3 :=
+  ⟨exHeap_inv, by decide, fun x hx => upd_ne _ _ _ _ hx, by decide⟩
+
+/-! ## 2. The minimum, and what a handle identifies -/
+
+/-- `ptrheap_getmin`: NULL exactly on the empty heap, otherwise a least element of the multiset -/
+theorem getmin_least (key : Nat → Int) (h : Heap) (hi : Inv key h) :
+    (getmin h = none ↔ h.a.toList = []) ∧
+    ∀ e, getmin h = some e → e ∈ h.a.toList ∧ ∀ x ∈ h.a.toList, key e ≤ key x :=
+  ⟨getmin_none_iff h, fun e he => getmin_isLeast key h e hi he⟩
+
+-- two elements (3 and 9) have the least key 0
+example : Inv exKey exHeap ∧ getmin exHeap = some 3 ∧ exKey 9 = exKey 3 := ⟨exHeap_inv, by decide, by decide⟩
+
+/-- the position most recently reported for a live element identifies exactly that element:
+slot `rc` holds `e` iff `rc` is the last position reported for `e` -/
+theorem handle_identifies (key : Nat → Int) (h : Heap) (hi : Inv key h) (e rc : Nat)
+    (he : e ∈ h.a.toList) : posOf h e = some rc ↔ h.a[rc]? = some e :=
+  handle_iff key h hi e rc he
+
+example : Inv exKey exHeap ∧ 4 ∈ exHeap.a.toList ∧ posOf exHeap 4 = some 4 := ⟨exHeap_inv, by decide, by decide⟩
+
+/-! ## 4. Every reachable state; the monitor accepts every trace of the model -/
+
+/-- In every state reachable by any finite sequence of create/add/getmin/delmin/del/inc/dec/incmin/drain
+(keys changing along the way; out-of-contract operations are skipped exactly as the harness skips
+them) the invariant holds for the current keys and the array holds exactly the live ids. -/
+theorem reachable_inv (ops : List Op) :
+    Inv (run St.init ops).key (run St.init ops).h ∧
+    (run St.init ops).h.a.toList.Perm (run St.init ops).live :=
+  have h := reach_run St.init ops reach_init
+  ⟨h.inv, h.perm⟩
+
+example : (run St.init (exOps.take 13)).h.a = #[9, 7, 5, 4, 2] ∧ (run St.init exOps).h.a = #[1] := ⟨by decide, by decide⟩
+
+/-- Every answer the model gives is accepted by the property monitor (`Spec.PQ.monStep`, which judges
+`getmin` by `getminOk`, `delmin`/`incmin` by `isLeast`, `drain` by `drainOk`, and demands `ok` for every
+in-contract add/del/inc/dec): the model's traces are admissible. -/
+theorem model_trace_accepted (ops : List Op) : accepts MSt.init (trace St.init ops) = true :=
+  accepts_trace St.init ops reach_init
+
+-- the example trace answers every op for real (no `skip`), and the monitor does reject a wrong answer
+example : (trace St.init exOps).map (·.2) =
+    [.ok, .ok, .ok, .min (some 4), .ok, .min (some 2), .ok, .ok, .okId 2, .okId 3, .ok, .ok, .min (some 9),
+     .drained [9, 7, 2, 5, 4], .ok] := by decide
+example : accepts MSt.init [(.add 1 5, .ok), (.add 2 3, .ok), (.getmin, .min (some 1))] = false := by decide
+
+/-! ## 5. Timer queue -/
+
+/-- `tvKey` is `tvcmp`: lexicographic on `(tv_sec, tv_usec)` for every 64-bit `tv_usec` -/
+theorem tvKey_lexicographic (s u s' u' : Int) (hu : -2^63 ≤ u ∧ u < 2^63) (hu' : -2^63 ≤ u' ∧ u' < 2^63) :
+    TimerQueue.tvKey s u ≤ TimerQueue.tvKey s' u' ↔ (s < s' ∨ (s = s' ∧ u ≤ u')) :=
+  tvKey_le_iff s u s' u' hu hu'
+
+example : (-2^63 ≤ (999999 : Int) ∧ (999999 : Int) < 2^63) ∧
+    TimerQueue.tvKey 1 999999 ≤ TimerQueue.tvKey 2 0 := ⟨by decide, by decide⟩
+
+theorem tq_empty_inv : TQInv TimerQueue.empty := tq_inv_empty
+
+example : TimerQueue.empty.h.a.size = 0 := rfl
+
+/-- `timerqueue_add` with a fresh record: invariant (hence every existing handle) kept -/
+theorem tq_add_inv (q : TimerQueue.TQ) (r : Nat) (sec usec : Int) (ptr : Nat) (hi : TQInv q)
+    (hf : r ∉ q.h.a.toList) :
+    TQInv (TimerQueue.add q r sec usec ptr) ∧
+    (TimerQueue.add q r sec usec ptr).h.a.toList.Perm (r :: q.h.a.toList) ∧
+    (TimerQueue.add q r sec usec ptr).recs = (r, ⟨sec, usec, ptr⟩) :: q.recs :=
+  tq_add q r sec usec ptr hi hf
+
+example : TQInv exQ ∧ 4 ∉ exQ.h.a.toList ∧ exQ.h.a = #[3, 2, 1] := ⟨exQ_inv, by decide, by decide⟩
+
+/-- `timerqueue_delete(Q, cookie)` of a live record: the `rc` stored in the record resolves, exactly
+that record leaves, invariant kept, bindings untouched -/
+theorem tq_delete_inv (q : TimerQueue.TQ) (r : Nat) (hi : TQInv q) (hr : r ∈ q.h.a.toList) :
+    ∃ q', TimerQueue.delete q r = some q' ∧ TQInv q' ∧ q.h.a.toList.Perm (r :: q'.h.a.toList) ∧
+      q'.recs = q.recs :=
+  tq_delete q r hi hr
+
+example : TQInv exQ ∧ 2 ∈ exQ.h.a.toList := ⟨exQ_inv, by decide⟩
+
+/-- `timerqueue_increase(Q, cookie, tv)` of a live record to a time not earlier than its old one -/
+theorem tq_increase_inv (q : TimerQueue.TQ) (r : Nat) (sec usec : Int) (old : TimerQueue.Rec) (hi : TQInv q)
+    (hr : r ∈ q.h.a.toList) (hold : TimerQueue.lookup q.recs r = some old)
+    (hge : TimerQueue.tvKey old.sec old.usec ≤ TimerQueue.tvKey sec usec) :
+    ∃ q', TimerQueue.increase q r sec usec = some q' ∧ TQInv q' ∧ q'.h.a.toList.Perm q.h.a.toList ∧
+      q'.recs = (r, { old with sec, usec }) :: q.recs :=
+  tq_increase q r sec usec old hi hr hold hge
+
+example : TQInv exQ ∧ 3 ∈ exQ.h.a.toList ∧ TimerQueue.lookup exQ.recs 3 = some ⟨2, 7, 103⟩ ∧
+    TimerQueue.tvKey 2 7 ≤ TimerQueue.tvKey 9 0 ∧
+    (TimerQueue.increase exQ 3 9 0).map (·.h.a) = some #[2, 3, 1] :=
+  ⟨exQ_inv, by decide, rfl, by decide, by decide⟩
+
+/-- handles stay valid: under the invariant — which every add/delete/increase/getptr preserves — the `rc`
+last stored in any live record locates exactly that record in the heap -/
+theorem tq_handles_valid (q : TimerQueue.TQ) (hi : TQInv q) (r : Nat) (hr : r ∈ q.h.a.toList) :
+    ∃ rc, posOf q.h r = some rc ∧ q.h.a[rc]? = some r :=
+  tq_handle_valid q hi r hr
+
+example : TQInv exQ ∧ 1 ∈ exQ.h.a.toList ∧ posOf exQ.h 1 = some 2 := ⟨exQ_inv, by decide, by decide⟩
+
+/-- `timerqueue_getmin`: NULL iff empty, else the time of a record with least time -/
+theorem tq_getmin_least (q : TimerQueue.TQ) (hi : TQInv q) :
+    match TimerQueue.getmin q with
+    | none => q.h.a.toList = []
+    | some (s, u) => ∃ r x, IsLeast (TimerQueue.key q.recs) q.h.a.toList r ∧
+        TimerQueue.lookup q.recs r = some x ∧ s = x.sec ∧ u = x.usec :=
+  tq_getmin q hi
+
+example : TQInv exQ ∧ TimerQueue.getmin exQ = some (2, 7) := ⟨exQ_inv, by decide⟩
+
+/-- `timerqueue_getptr(Q, tv)`: if something is released it is a record of least time, that time is
+`≤ tv`, the pointer is the one stored with the record, and exactly that record leaves; if nothing is
+released then every live record is later than `tv` and the queue is unchanged. -/
+theorem tq_getptr_spec (q : TimerQueue.TQ) (sec usec : Int) (hi : TQInv q) :
+    match TimerQueue.getptr q sec usec with
+    | (q', some (r, p)) =>
+        IsLeast (TimerQueue.key q.recs) q.h.a.toList r ∧
+        TimerQueue.key q.recs r ≤ TimerQueue.tvKey sec usec ∧
+        (∃ x, TimerQueue.lookup q.recs r = some x ∧ p = x.ptr) ∧
+        TQInv q' ∧ q.h.a.toList.Perm (r :: q'.h.a.toList) ∧ q'.recs = q.recs
+    | (q', none) => q' = q ∧ ∀ x ∈ q.h.a.toList, TimerQueue.key q.recs x > TimerQueue.tvKey sec usec :=
+  tq_getptr q sec usec hi
+
+example : TQInv exQ ∧ (TimerQueue.getptr exQ 2 7).2 = some (3, 103) ∧ (TimerQueue.getptr exQ 2 6).2 = none :=
+  ⟨exQ_inv, by decide, by decide⟩
+
+/-- a drain (repeated `getptr` with the same `tv`, nothing added in between) releases records in
+non-decreasing time order; each is due, was live at the start, and comes with its stored pointer -/
+theorem tq_drain_sorted (sec usec : Int) (fuel : Nat) (q : TimerQueue.TQ) (hi : TQInv q) :
+    (tqDrain sec usec fuel q).Pairwise (fun a b => TimerQueue.key q.recs a.1 ≤ TimerQueue.key q.recs b.1) ∧
+    ∀ a ∈ tqDrain sec usec fuel q,
+      TimerQueue.key q.recs a.1 ≤ TimerQueue.tvKey sec usec ∧ a.1 ∈ q.h.a.toList ∧
+      ∃ x, TimerQueue.lookup q.recs a.1 = some x ∧ a.2 = x.ptr :=
+  tq_drain sec usec fuel q hi
+
+example : TQInv exQ ∧ tqDrain 5 0 10 exQ = [(3, 103), (1, 101), (2, 102)] ∧ tqDrain 4 0 10 exQ = [(3, 103)] :=
+  ⟨exQ_inv, by decide, by decide⟩
+
+/-- In every state reachable by any finite sequence of timer-queue add/delete/increase/getmin/getptr
+(equal and distinct times) the invariant holds — so every live record's handle is valid — and the heap
+holds exactly the live records. -/
+theorem tq_reachable_inv (ops : List TOp) :
+    TQInv (trun TSt.init ops).q ∧ (trun TSt.init ops).q.h.a.toList.Perm (trun TSt.init ops).live :=
+  have h := treach_run TSt.init ops treach_init
+  ⟨h.inv, h.perm⟩
+
+example : (trun TSt.init (exTOps.take 8)).q.h.a = #[3, 4, 1] ∧ (trun TSt.init exTOps).q.h.a = #[4] :=
+  ⟨by decide, by decide⟩
+
+/-- Every answer of the timer-queue model is accepted by the monitor `Spec.PQ.tmonStep`: `getptr` by
+`getptrOk` (least, due, or nothing due) plus "the pointer is the one stored with the record", `getmin` by
+"the least live time", and every in-contract add/delete/increase must succeed. -/
+theorem tq_trace_accepted (ops : List TOp) : taccepts TMSt.init (ttrace TSt.init ops) = true := by
+  have := taccepts_trace TSt.init ops treach_init
+  rw [mOf_init] at this; exact this
+
+example : (ttrace TSt.init exTOps).map (·.2) =
+    [.ok, .ok, .ok, .ok, .tmin (some (2, 7)), .rel none, .ok, .ok, .rel (some (3, 103)), .rel (some (1, 101)),
+     .rel none, .tmin (some (9, 1))] := by decide
+example : taccepts TMSt.init [(.add 1 5 0 101, .ok), (.add 2 3 0 102, .ok), (.get 9 0, .rel (some (1, 101)))] = false := by
+  decide
+
 end Percival.C13
